@@ -22,8 +22,8 @@ MANIFEST = {
     "text": "partial: for the model of range_iter/packRange/canPackMoreRanges/getNextRangeOffset/lengthToSend over ANY store delivery schedule "
             "(theorems honoured_wire_exact, content_length_exact, parts_are_requested_satisfiable, parts_cover_requested, respond_status, serveStored_sound) the 206 body is "
             "exactly the requested slices with their framing, Content-Length is exact, and the parts are the satisfiable requested ranges; an "
-            "ignored range yields the complete object unless the object is swapped in from disk with a positive lowest range offset "
-            "(ignored_wire_full_partial + ignored_wire_counterexample: known finding C15-disk-hit-ignored-range-skips-first-buffer); the model "
+            "ignored range yields the complete object for every first store answer (ignored_wire_full, at full strength since fix f9db419; "
+            "prefix_variant_ignored_wire_counterexample documents the pre-fix behaviour); the model "
             "is tied to the rebuilt binary by scenario correspondence (status, Content-Range, Content-Length, part list, FNV of the "
             "boundary-normalised wire body) and a direct oracle that re-reads the multipart framing and compares every part with the origin object",
     "note": "trusted: Lean kernel, python rig (origin/client stubs), loopback TCP; not modelled: socket I/O, store internals (swap-in, "
@@ -32,7 +32,6 @@ MANIFEST = {
                  "end-to-end scenario correspondence with three rebuilt squid instances",
 }
 
-FINDING = "C15-disk-hit-ignored-range-skips-first-buffer"
 
 
 def build(stage):
@@ -246,23 +245,10 @@ def in_scope(l):
     return len(t) == 10 and (t[6] == "-" or clean_or_invalid(unhx(t[6])))
 
 
-def prone(l):
-    """scenarios of the class of the known finding (disk-only hit, positive lowest offset): the framework examines only the first 40
-    failing cases, so these go last and cannot hide a new failure"""
-    sc = H.parse_line(l)
-    return bool(sc and sc["mode"] == "disk" and sc["range"] is not None and lowest_offset(H.origin_specs(sc["range"])) > 0)
-
-
 def cases(rng, tier):
-    late = []
     for l in all_cases(rng, tier):
-        if not in_scope(l):
-            continue
-        if prone(l):
-            late.append(l)
-        else:
+        if in_scope(l):
             yield l
-    yield from late
 
 
 def all_cases(rng, tier):
@@ -386,20 +372,7 @@ def oracle(l, impl):
 
 
 def compare(l, impl, model):
-    if impl == model:
-        return True
-    m = re.search(r" skew=(\d+),\* ", model)
-    if not m:
-        return False
-    # the model leaves the size of the first disk read open: the complete object, or the object skewed from L at some m in (L, 4096]
-    L = int(m.group(1))
-    mi = re.search(r" skew=(\d+),(\d+) ", impl)
-    if mi:
-        if int(mi.group(1)) != L or not (L < int(mi.group(2)) <= 4096):
-            return False
-        strip = lambda s: re.sub(r" body=\S+", "", re.sub(r" skew=\S+", "", s))
-        return strip(impl) == strip(model)
-    return impl == model.replace(" skew=%d,* " % L, " skew=- ")
+    return impl == model
 
 
 def lowest_offset(specs):
@@ -409,15 +382,7 @@ def lowest_offset(specs):
 
 
 def classify(l, impl, why):
-    sc = H.parse_line(l)
-    if sc is None or sc["mode"] != "disk" or not impl.startswith("200 "):
-        return None
-    f = fields(impl)
-    m = re.fullmatch(r"(\d+),(\d+)", f.get("skew", "-"))
-    L = lowest_offset(requested(sc))
-    if m and L > 0 and int(m.group(1)) == L and f.get("src") == "TCP_HIT" and "not the complete object" in (why or ""):
-        return FINDING
-    return None
+    return None     # no open finding (C15-disk-hit-ignored-range-skips-first-buffer is fixed: its witnesses are regression cases in corpus/C15)
 
 
 def nontrivial(l, impl, model):
